@@ -6,7 +6,7 @@ OUT=$1; shift
 mkdir -p $OUT
 for M in "$@"; do
   id=$(basename $M)
-  prop=$(echo $id | sed "s/^r2-//" | cut -d- -f1)
+  prop=$(echo $id | sed -E "s/^r[0-9]+-//" | cut -c1-3)
   patch=$M/patch.diff
   demo=$(ls $M/demo_*.rs | head -1)
   log=$OUT/$id.log
